@@ -15,13 +15,15 @@ type c14Proc struct {
 	Exe, Arg, Env, Dir, Restart, Desc string
 	Period, Signal                    int
 	Dep                               bool
+	DepCond                           string
+	Threshold, Max, ShutTimeout       int
 }
 
 func c14Base() c14Proc {
-	return c14Proc{Exe: "run-it", Arg: "x", Env: "K=1", Dir: "/", Restart: "no", Desc: "d1", Period: 30, Signal: 15}
+	return c14Proc{Exe: "run-it", Arg: "x", Env: "K=1", Dir: "/", Restart: "no", Desc: "d1", Period: 30, Signal: 15, DepCond: "process_completed", Threshold: 4, Max: 2, ShutTimeout: 3}
 }
 
-var c14Fields = []string{"executable", "args", "environment", "working_dir", "probe", "availability", "depends_on", "shutdown", "description"}
+var c14Fields = []string{"executable", "args", "environment", "working_dir", "probe", "probe_threshold", "availability", "max_restarts", "depends_on", "dep_condition", "shutdown", "shutdown_timeout", "description"}
 
 func (p c14Proc) change(field string) c14Proc {
 	tog := func(cur, a, b string) string {
@@ -45,6 +47,15 @@ func (p c14Proc) change(field string) c14Proc {
 		p.Restart = tog(p.Restart, "no", "on_failure")
 	case "depends_on":
 		p.Dep = !p.Dep
+	case "dep_condition":
+		p.Dep = true
+		p.DepCond = tog(p.DepCond, "process_completed", "process_started")
+	case "probe_threshold":
+		p.Threshold = 9 - p.Threshold
+	case "max_restarts":
+		p.Max = 5 - p.Max
+	case "shutdown_timeout":
+		p.ShutTimeout = 7 - p.ShutTimeout
 	case "shutdown":
 		p.Signal = 17 - p.Signal
 	case "description":
@@ -56,10 +67,10 @@ func (p c14Proc) change(field string) c14Proc {
 func (p c14Proc) yaml(name string) string {
 	var b strings.Builder
 	fmt.Fprintf(&b, "  %s:\n    entrypoint: [%q, %q]\n    description: %q\n    working_dir: %q\n    environment:\n      - '%s'\n", name, p.Exe, p.Arg, p.Desc, p.Dir, p.Env)
-	fmt.Fprintf(&b, "    availability:\n      restart: %q\n    shutdown:\n      signal: %d\n", p.Restart, p.Signal)
-	fmt.Fprintf(&b, "    readiness_probe:\n      exec:\n        command: \"probe-%s\"\n      period_seconds: %d\n", name, p.Period)
+	fmt.Fprintf(&b, "    availability:\n      restart: %q\n      max_restarts: %d\n    shutdown:\n      signal: %d\n      timeout_seconds: %d\n", p.Restart, p.Max, p.Signal, p.ShutTimeout)
+	fmt.Fprintf(&b, "    readiness_probe:\n      exec:\n        command: \"probe-%s\"\n      period_seconds: %d\n      failure_threshold: %d\n", name, p.Period, p.Threshold)
 	if p.Dep {
-		b.WriteString("    depends_on:\n      d:\n        condition: process_completed\n")
+		fmt.Fprintf(&b, "    depends_on:\n      d:\n        condition: %s\n", p.DepCond)
 	}
 	return b.String()
 }
@@ -97,6 +108,18 @@ func c14Scenarios(tier string) []*Scenario {
 			}
 			return alive == n0 && w.launches["d#0"] > 0
 		}
+		// a pure change of a dependency's condition needs the dependency to exist before
+		init2 := map[string]c14Proc{}
+		for n, p := range init {
+			for _, u := range updates {
+				if u[n] == "changed:dep_condition" {
+					p.Dep = true
+				}
+			}
+			init2[n] = p
+		}
+		init = init2
+		sc.YAML = c14Project(init)
 		cur := init
 		var calls []APICall
 		var steps []c14Step
